@@ -7,7 +7,8 @@
    api.Booklet accepts: N in {2,4,6,8}, booklet type in {Booklet, BookletAdvanced, BookletPerfectBound};
    binding bd, orientation ls (landscape), fold tf are arbitrary; IW = width of Go's int;
    `fits IW n` = 2 <= IW and 4n + 256 <= MaxInt (no arithmetic overflow in the position functions). *)
-From PV Require Import Lib.GoInt C34.Generated C34.Model C34.ProofsBase C34.ProofsOrder C34.ProofsNup C34.ProofsTop.
+From PV Require Import Lib.GoInt C34.Generated C34.Model C34.ProofsBase C34.ProofsOrder C34.ProofsNup C34.ProofsTop C34.ProofsMap.
+From Coq Require Import Sorted.
 From Coq Require Import Permutation Lia.
 Open Scope Z_scope.
 
@@ -77,11 +78,59 @@ Theorem C34_nup_pages : forall N sorted, 0 < N -> 1 <= slice_len sorted ->
 Proof. exact nup_pages_lemma. Qed.
 Print Assumptions C34_nup_pages.
 
+(* ---- over the selected-page MAP (types.IntSet; api.PagesForPageSelection stores a deselected page
+   as pages[n] = false).  m = association list with distinct keys, any order; selected = keys mapped to
+   true; selectedCount m = their number.  sortSelectedPages (nup.go, used by booklet, n-up and grid): *)
+Theorem C34_map_sorted_selection : forall m,
+  Sorted Z.le (sortSelectedPages m) /\
+  (forall p, In p (sortSelectedPages m) <-> In (p, true) m) /\
+  (NoDup (map fst m) -> NoDup (sortSelectedPages m)) /\
+  (NoDup (map fst m) -> forall p, In (p, false) m -> ~ In p (sortSelectedPages m)).
+Proof. exact sortSelectedPages_spec_lemma. Qed.
+Print Assumptions C34_map_sorted_selection.
+
+(* plain booklet from the map: every selected page in exactly one slot, deselected and absent page
+   numbers in none, blanks = padding, whole sheets, padding below one sheet *)
+Theorem C34_map_booklet_selected_exactly_once : forall IW N bt bd ls tf folio m,
+  accepted N bt -> fits IW (selectedCount m + 2 * N) -> NoDup (map fst m) -> ~ In (0, true) m ->
+  exists slots, getBookletOrderingOfMap IW N bt bd ls tf false folio m = Ok slots /\
+    (forall p, In (p, true) m -> count_occ Z.eq_dec (map fst slots) p = 1%nat) /\
+    (forall p, p <> 0 -> ~ In (p, true) m -> count_occ Z.eq_dec (map fst slots) p = 0%nat) /\
+    (forall p, p <> 0 -> In (p, false) m -> count_occ Z.eq_dec (map fst slots) p = 0%nat) /\
+    Z.of_nat (count_occ Z.eq_dec (map fst slots) 0) = Z.of_nat (length slots) - selectedCount m /\
+    Z.of_nat (length slots) mod (2 * N) = 0 /\ 0 <= Z.of_nat (length slots) - selectedCount m < 2 * N.
+Proof. exact map_booklet_lemma. Qed.
+Print Assumptions C34_map_booklet_selected_exactly_once.
+
+(* multi-folio from the map, same restriction as C34_multifolio_partial *)
+Theorem C34_map_multifolio_partial : forall IW N bt bd ls tf folio m,
+  accepted N bt -> 1 <= folio -> (4 * folio) mod (2 * N) = 0 -> 1 <= selectedCount m ->
+  fits IW (selectedCount m + 2 * N) -> NoDup (map fst m) -> ~ In (0, true) m ->
+  exists slots, getBookletOrderingOfMap IW N bt bd ls tf true folio m = Ok slots /\
+    (forall p, In (p, true) m -> count_occ Z.eq_dec (map fst slots) p = 1%nat) /\
+    (forall p, p <> 0 -> ~ In (p, true) m -> count_occ Z.eq_dec (map fst slots) p = 0%nat) /\
+    (forall p, p <> 0 -> In (p, false) m -> count_occ Z.eq_dec (map fst slots) p = 0%nat) /\
+    Z.of_nat (count_occ Z.eq_dec (map fst slots) 0) = Z.of_nat (length slots) - selectedCount m /\
+    Z.of_nat (length slots) mod (2 * N) = 0 /\ 0 <= Z.of_nat (length slots) - selectedCount m < 2 * N.
+Proof. exact map_multifolio_partial_lemma. Qed.
+Print Assumptions C34_map_multifolio_partial.
+
+(* n-up / grid from the map: slots = the selected keys ascending (see C34_map_sorted_selection: exactly
+   the keys mapped to true), then blanks; ceil(selected / N) output pages *)
+Theorem C34_map_nup : forall IW N m, 0 < N ->
+  exists blanks, nupSlotsOfMap IW N m = sortSelectedPages m ++ repeat 0 (Z.to_nat blanks) /\
+    0 <= blanks < N /\ (selectedCount m + blanks) mod N = 0 /\
+    (1 <= selectedCount m -> nupOutputPagesOfMap N m = (selectedCount m + N - 1) / N).
+Proof. exact map_nup_lemma. Qed.
+Print Assumptions C34_map_nup.
+
 (* non-vacuity: hypotheses are satisfiable, concrete orderings *)
 Example C34_nonvacuous :
   accepted 2 0 /\ accepted 8 2 /\ fits 64 (slice_len [1;2;3;4;5] + 2 * 8) /\
   getBookletOrdering 64 2 0 0 false false false 8 [1;2;3;4;5]
     = Ok [(0,true);(1,true);(0,false);(2,false);(0,true);(3,true);(5,false);(4,false)] /\
   (4 * 3) mod (2 * 6) = 0 /\
-  nupSlots 64 4 [1;3;5;7;9] = [1;3;5;7;9;0;0;0] /\ nupOutputPages 4 [1;3;5;7;9] = 2.
+  nupSlots 64 4 [1;3;5;7;9] = [1;3;5;7;9;0;0;0] /\ nupOutputPages 4 [1;3;5;7;9] = 2 /\
+  sortSelectedPages [(4,true);(2,false);(1,true);(5,false);(3,true)] = [1;3;4] /\
+  nupSlotsOfMap 64 2 [(4,true);(2,false);(1,true);(5,false);(3,true)] = [1;3;4;0].
 Proof. unfold accepted, fits, maxS. vm_compute. repeat split; try congruence; lia. Qed.
